@@ -8,6 +8,7 @@ A body stream is modelled by the list of its successive `Read` results up to io.
 Core Lean only.
 -/
 import FhVerif.Model.IntCodec
+import FhVerif.Gen.StreamC34
 
 namespace Fh.Model.C34
 open Fh.Model
@@ -24,6 +25,19 @@ def writeChunk (b : Bytes) : Bytes :=
 def writeBodyChunked : List Bytes → Bytes
   | [] => writeChunk []
   | p :: rest => (if p.isEmpty then [] else writeChunk p) ++ writeBodyChunked rest
+
+/-- http.go (*chunkedBodyWriter).Write — the WriteTo-based framing for *bytes.Reader, *bytes.Buffer and BodyWriterTo streams:
+    a write of 0 bytes emits nothing ("an empty chunk marks end-of-stream"), any other write is framed as ONE chunk.
+    Result: the data chunks emitted for this write. -/
+def cbwWrite (p : Bytes) : List Bytes := if p.isEmpty then [] else [p]
+
+/-- writeBodyChunked through WriteTo: the writes are framed by cbwWrite, then the end chunk is written (once, after
+    WriteTo returned) -/
+def writeBodyChunkedWT (writes : List Bytes) : Bytes :=
+  ((writes.flatMap cbwWrite).flatMap writeChunk) ++ writeChunk []
+
+/-- the data chunks of a chunked body, for the Read loop and for the WriteTo framing alike -/
+def dataChunks (reads : List Bytes) : List Bytes := reads.flatMap cbwWrite
 
 /-- what follows the end chunk when there are no trailer fields (header.go writeTrailer) -/
 def chunkedWire (reads : List Bytes) : Bytes := writeBodyChunked reads ++ crlf
